@@ -13,24 +13,125 @@ open Nodes Linz
 
 /-! ### the tie to the source: the three entry points are well locked -/
 
-open Gen.LockFacts in
-/-- before `.lock` only the whitelisted producers-map lookup and pure code; exactly one `.lock`;
-    after it either the deferred unlock comes immediately (then no other lock operation follows),
-    or there is no deferred unlock and the body ends with `… unlock, ret` with no other lock
-    operation or return inside; hence every `.access` lies between Lock and Unlock -/
-def wellLocked (f : Fn) : Bool :=
-  let pre := f.evs.takeWhile (· ≠ .lock)
-  let rest := (f.evs.dropWhile (· ≠ .lock)).drop 1
-  let noLockOps := fun (l : List Ev) => l.all (fun e => e ≠ .lock ∧ e ≠ .unlock ∧ e ≠ .deferUnlock)
-  f.evs.contains .lock
-  && pre.all (fun e => match e with | .producersLookup => true | .pure _ => true | _ => false)
-  && (match rest with
-      | .deferUnlock :: body => noLockOps body && body.getLast? == some .ret
-      | _ =>
-        let n := rest.length
-        n ≥ 2 && rest.drop (n - 2) == [.unlock, .ret]
-        && noLockOps (rest.take (n - 2)) && (rest.take (n - 2)).all (· ≠ .ret))
-  && rest.any (fun e => match e with | .access _ => true | _ => false)
+section WellLocked
+open Gen.LockFacts
+
+def isAccess : Ev → Bool
+  | .access _ => true
+  | _ => false
+
+/-- explicit unlocking: accesses / pure code, then exactly `unlock, ret` (no early return, no second
+    lock operation) -/
+def explicitBody : List Ev → Bool
+  | [] => false
+  | e :: es =>
+    match e with
+    | .unlock => es == [.ret]
+    | .access _ => explicitBody es
+    | .pure _ => explicitBody es
+    | .producersLookup => explicitBody es
+    | _ => false
+
+/-- what may follow `.lock`: the deferred unlock immediately (then no further lock operation, and
+    the body ends in a return), or a body that unlocks explicitly as its last act -/
+def afterLock : List Ev → Bool
+  | .deferUnlock :: body =>
+    body.all (fun e => e ≠ .lock ∧ e ≠ .unlock ∧ e ≠ .deferUnlock) && body.getLast? == some .ret
+  | rest => explicitBody rest
+
+/-- before `.lock` only the whitelisted producers-map lookup and pure code (panic / fmt.Errorf) -/
+def lockedEvs : List Ev → Bool
+  | [] => false
+  | e :: es =>
+    match e with
+    | .lock => afterLock es
+    | .producersLookup => lockedEvs es
+    | .pure _ => lockedEvs es
+    | _ => false
+
+/-- the obligation on one function; it must also contain at least one access (else the extractor
+    has lost sight of the body) -/
+def wellLocked (f : Fn) : Bool := lockedEvs f.evs && f.evs.any isAccess
+
+theorem explicitBody_unlock {es : List Ev} (h : explicitBody es = true) : .unlock ∈ es := by
+  induction es with
+  | nil => simp [explicitBody] at h
+  | cons e es ih =>
+    cases e <;> simp only [explicitBody] at h <;> first
+      | exact List.mem_cons_self ..
+      | exact List.mem_cons_of_mem _ (ih h)
+      | cases h
+
+theorem explicitBody_sound {es : List Ev} (h : explicitBody es = true) (l1 l2 : List Ev) (w : String)
+    (heq : es = l1 ++ .access w :: l2) : .unlock ∈ l2 := by
+  induction es generalizing l1 with
+  | nil => simp [explicitBody] at h
+  | cons e es ih =>
+    cases l1 with
+    | nil =>
+      simp only [List.nil_append, List.cons.injEq] at heq
+      obtain ⟨rfl, rfl⟩ := heq
+      simp only [explicitBody] at h
+      exact explicitBody_unlock h
+    | cons x l1 =>
+      simp only [List.cons_append, List.cons.injEq] at heq
+      obtain ⟨rfl, heq⟩ := heq
+      cases e <;> simp only [explicitBody] at h <;> first
+        | exact ih h l1 heq
+        | cases h
+        | (simp only [beq_iff_eq] at h; subst h; cases l1 <;> simp at heq)
+
+/-- **meaning of the obligation**: in a well-locked body every access to shared state has the
+    `Lock()` before it and the `Unlock()` after it — deferred (registered before the access, run
+    at return) or explicit (after the access) -/
+theorem wellLocked_sound (f : Fn) (h : wellLocked f = true) (l1 l2 : List Ev) (w : String)
+    (heq : f.evs = l1 ++ .access w :: l2) :
+    .lock ∈ l1 ∧ (.deferUnlock ∈ l1 ∨ .unlock ∈ l2) := by
+  simp only [wellLocked, Bool.and_eq_true] at h
+  have h1 := h.1
+  clear h
+  generalize f.evs = es at h1 heq
+  induction es generalizing l1 with
+  | nil => simp [lockedEvs] at h1
+  | cons e es ih =>
+    cases l1 with
+    | nil =>
+      simp only [List.nil_append, List.cons.injEq] at heq
+      obtain ⟨rfl, -⟩ := heq
+      simp [lockedEvs] at h1
+    | cons x l1 =>
+      simp only [List.cons_append, List.cons.injEq] at heq
+      obtain ⟨rfl, heq⟩ := heq
+      cases e with
+      | lock =>
+        simp only [lockedEvs] at h1
+        refine ⟨List.mem_cons_self .., ?_⟩
+        cases l1 with
+        | nil =>
+          simp only [List.nil_append] at heq
+          subst heq
+          simp only [afterLock] at h1
+          exact .inr (explicitBody_sound h1 [] l2 w rfl)
+        | cons y l1 =>
+          simp only [List.cons_append] at heq
+          subst heq
+          by_cases hy : y = .deferUnlock
+          · subst hy; exact .inl (by simp)
+          · have : afterLock (y :: (l1 ++ .access w :: l2)) = explicitBody (y :: (l1 ++ .access w :: l2)) := by
+              cases y <;> first | rfl | exact absurd rfl hy
+            rw [this] at h1
+            exact .inr (explicitBody_sound h1 (y :: l1) l2 w rfl)
+      | producersLookup =>
+        simp only [lockedEvs] at h1
+        have := ih l1 h1 heq
+        exact ⟨List.mem_cons_of_mem _ this.1, this.2.imp (List.mem_cons_of_mem _) id⟩
+      | pure s =>
+        simp only [lockedEvs] at h1
+        have := ih l1 h1 heq
+        exact ⟨List.mem_cons_of_mem _ this.1, this.2.imp (List.mem_cons_of_mem _) id⟩
+      | _ => simp [lockedEvs] at h1
+
+end WellLocked
 
 open Gen.LockFacts in
 /-- obligation on the regenerated facts: `UpdateParameter`, `ParameterData`, `Artifact` of the
